@@ -384,6 +384,44 @@ def main(pid, tier):
                         key_, index, shape, json.dumps(got)[:80], exp_),
                         {'tag': 'lookup:long-series', 'suite': 'lookup', 'shape': list(shape), 'key': key_, 'index': list(index)})
                     break
+    # ---- a dictionary left over for a classification the shape does not allow (a time section in a 3-D extension or next to
+    # a singular time axis, a vector section below 5-D): the format rules ignore it, and so does every lookup
+    from collections import OrderedDict
+    for shape, left in [((2, 2, 3), ['time', 'vector']), ((2, 2, 3, 2), ['vector']), ((2, 2, 3, 1, 2), ['time'])]:
+        sd_ = 2
+        S_ = shape[2]
+        T_ = shape[3] if len(shape) > 3 else 1
+        V_ = shape[4] if len(shape) > 4 else 1
+        ents = [('Dup', 'gconst', 'good'), ('SliceTag', 'gslices', list(range(S_ * T_ * V_)))]
+        if V_ > 1:
+            ents.append(('DupV', 'vsamples', ['v%d' % i for i in range(V_)]))
+        ext = M.build_ext(list(shape), sd_, ents)
+        for base in left:
+            ext._content[base] = OrderedDict([('samples', OrderedDict([('Dup', ['stale'] * 2), ('DupV', ['stale'] * 2), ('Only', ['stale'] * 2)])),
+                                              ('slices', OrderedDict([('SliceTag', ['stale'] * (2 * S_)), ('OnlyS', ['stale'] * (2 * S_))]))])
+        try:
+            img = nb.Nifti1Image(np.zeros(shape, dtype=np.int8), np.eye(4))
+            img.header.set_dim_info(slice=sd_)
+            img.header.extensions.append(ext)
+            w = NiftiWrapper(img)
+        except Exception as e:
+            rep.count('lookup/leftover-section-refused')
+            continue
+        for index in itertools.product(*[range(n) for n in shape]):
+            rep.evaluations += 1
+            rep.count('lookup/leftover-section')
+            s_ = index[2]
+            t_ = index[3] if len(shape) > 3 else 0
+            v_ = index[4] if len(shape) > 4 else 0
+            want = {'Dup': {'value': M.cv('good')}, 'SliceTag': {'value': M.cv(s_ + S_ * (t_ + T_ * v_))}, 'Only': 'default', 'OnlyS': 'default'}
+            if V_ > 1:
+                want['DupV'] = {'value': M.cv('v%d' % v_)}
+            bad_ = [(k_, call(w, k_, index)) for k_ in want if call(w, k_, index) != want[k_]]
+            if bad_:
+                rep.failure('extension of shape %s with a left-over %s section: get_meta(%r, %s) returned %s, the valid classifications say %s' % (
+                    shape, '/'.join(left), bad_[0][0], index, json.dumps(bad_[0][1])[:80], json.dumps(want[bad_[0][0]])[:80]),
+                    {'tag': 'lookup:leftover-section', 'suite': 'lookup', 'shape': list(shape), 'leftover': left, 'key': bad_[0][0], 'index': list(index)})
+                break
     from .check_meta import finish_disagreements
     finish_disagreements(rep)
     return rep.finish()
